@@ -28,7 +28,7 @@ use rtcp_types::{
 
 use crate::ast::*;
 use crate::bufs::{Bufs, Long};
-use crate::custom::{Custom, CustomBuilder, UnitPkt};
+use crate::custom::{Custom, Custom16, Custom16Builder, CustomBuilder, UnitPkt};
 use crate::render::*;
 use crate::view::dump_kind_again;
 
@@ -105,6 +105,7 @@ impl_concrete! {
     ['a] RpsiBuilder<'a>;
     [] PliBuilder;
     ['a, const PT: u8, const MIN: usize] CustomBuilder<'a, PT, MIN>;
+    ['a, const PT: u8, const MIN: usize] Custom16Builder<'a, PT, MIN>;
     [const PT: u8] UnitPkt<PT>;
 }
 
@@ -559,21 +560,31 @@ fn build_basic<'r, V: BasicVisitor<'r>>(b: &'r B, ctx: &Ctx<'r>, v: V) -> V::Out
     }
 }
 
-fn custom_visit<'r, const PT: u8, const MIN: usize, V: Visitor<'r>>(
-    v: V,
-    body: &'r [u8],
-    calls: &[CustomCall],
-) -> V::Out {
-    let mut b = Custom::<PT, MIN>::builder(body);
-    for c in calls {
-        b = match c {
-            CustomCall::Probe => probed!(b),
-            CustomCall::Padding(p) => b.padding(*p),
-            CustomCall::PadStyleSome0 => b.pad_style_some0(),
-        };
-    }
-    v.visit(b)
+/// The builder of one third-party family (`custom_visit`: `Custom`, `custom16_visit`:
+/// `Custom16`), expanded once per family so that `probed!` sees a local of the concrete type.
+macro_rules! custom_visit_fn {
+    ($name:ident, $View:ident) => {
+        fn $name<'r, const PT: u8, const MIN: usize, V: Visitor<'r>>(
+            v: V,
+            body: &'r [u8],
+            calls: &[CustomCall],
+        ) -> V::Out {
+            let mut b = $View::<PT, MIN>::builder(body);
+            for c in calls {
+                b = match c {
+                    CustomCall::Probe => probed!(b),
+                    CustomCall::Padding(p) => b.padding(*p),
+                    CustomCall::PadStyleSome0 => b.pad_style_some0(),
+                    CustomCall::Count(n) => b.count(*n),
+                };
+            }
+            v.visit(b)
+        }
+    };
 }
+
+custom_visit_fn!(custom_visit, Custom);
+custom_visit_fn!(custom16_visit, Custom16);
 
 /// `(unit PT)`: every one of them is the same zero-sized value.
 fn unit_visit<'r, const PT: u8, V: Visitor<'r>>(v: V) -> V::Out {
@@ -598,11 +609,19 @@ fn build_with<'r, V: Visitor<'r>>(b: &'r B, ctx: &Ctx<'r>, v: V) -> V::Out {
             v.visit(cb)
         }
         B::Custom {
+            fam: Fam::Custom,
             pt,
             min,
             body,
             calls,
         } => crate::with_grid!(*pt, *min, custom_visit, [V], (v, body, calls)),
+        B::Custom {
+            fam: Fam::Custom16,
+            pt,
+            min,
+            body,
+            calls,
+        } => crate::with_grid!(*pt, *min, custom16_visit, [V], (v, body, calls)),
         B::Unit { pt } => crate::with_grid_pt!(*pt, unit_visit, [V], (v)),
         B::Fci(f) => match f {
             Fci::Nack(e) => v.visit(mk_nack(e)),
